@@ -130,17 +130,23 @@ class Lock:
 
 
 def mk(phases, deadlines, wc=4, threads=2, keepalive=2):
+    # built by the real ThreadWorker.__init__ / Worker.__init__ (what they set up - the keep-alive queue, the limits - is code
+    # under test); only the heartbeat file is replaced.  Concrete, so outside the tracer.
+    import gunicorn.workers.base as WB_
+    cfg = SimpleNamespace(keepalive=keepalive, is_ssl=False, worker_connections=wc, threads=threads, graceful_timeout=3,
+                          max_requests=0, max_requests_jitter=0)
+    log = SimpleNamespace(**{k: (lambda *a, **kw: None) for k in ("debug", "info", "warning", "error", "exception")})
     w = object.__new__(G.ThreadWorker)
-    w.cfg = SimpleNamespace(keepalive=keepalive, is_ssl=False, worker_connections=wc, threads=threads, graceful_timeout=3)
-    w.log = SimpleNamespace(**{k: (lambda *a, **kw: None) for k in ("debug", "info", "warning", "error", "exception")})
-    w.alive = True
-    w.worker_connections = wc
-    w.max_keepalived = wc - threads
+    with W._untraced():
+        saved_tmp = WB_.WorkerTmp
+        WB_.WorkerTmp = lambda cfg_: SimpleNamespace(notify=lambda: None, close=lambda: None)
+        try:
+            G.ThreadWorker.__init__(w, 1, 1, [], None, 15.0, cfg, log)
+        finally:
+            WB_.WorkerTmp = saved_tmp
     w.tpool = Pool()
     w.poller = W.Poller()
     w._lock = Lock()
-    w.futures = deque()
-    w._keep = deque()
     w.nr_conns = 0
     w.ppid = 1
     conns = []
